@@ -4,7 +4,7 @@ Part 1 (this file): the six x/w/q converters. Exact pass: the two molar
 masses in typhon.constants are replaced by Fraction stand-ins and every path
 through the conversion graph is walked on Fraction arguments; each node must
 equal the reference Moebius map exactly. Float pass: the same paths on floats
-in five argument containers, conditioning-based tolerance. Monotonicity on a
+in seven argument containers, conditioning-based tolerance. Monotonicity on a
 grid, exactly and in floats.
 Part 2 (c09_saturation.py): saturation pressures on a temperature lattice,
 rejection of non-positive temperatures, RH <-> VMR, moist lapse rate.
@@ -21,8 +21,8 @@ driver.setup_env()
 from typhon import constants                                   # noqa: E402
 
 from checks import c09_saturation as sat                       # noqa: E402
-from checks.c09_util import (CONTAINERS, U, atmosphere,         # noqa: E402
-                             evaluate, failure_key, failures)
+from checks.c09_util import (CONTAINERS, PER_VALUE, U,          # noqa: E402
+                             atmosphere, evaluate, failure_key, failures)
 
 PROP = "C09"
 LEVEL = "exploration"
@@ -32,21 +32,27 @@ RULE = (
     "each start value x0 (7 quick / 22 thorough rationals in [0, 1), mapped "
     "exactly to the start node), walked (a) on Fractions with two pairs of "
     "Fraction molar masses, every node compared with == against the "
-    "reference map, (b) on floats in 5 containers (float, float64, 0-d, "
-    "1-d, 2-d) with tolerance 8 U per edge / (1 - x0); one case = (pass, "
+    "reference map, (b) on floats in 7 containers (one call per value: "
+    "float, float64, 0-d, shape (1,), shape (1,1); one call on all values: "
+    "1-d, 2-d column) with tolerance 8 U per edge / (1 - x0); the result "
+    "must have the argument's shape; one case = (pass, "
     "container or stand-in, path, x0), non-trivial = x0 != 0. Monotonicity: "
     "each converter on all adjacent pairs of an N-point grid of its input "
     "measure (N=200/2000), exactly and in floats (every pair non-trivial). "
     "Saturation: T = 100..400 K step 1/4 (1/256) K plus T_t and T_t-23 with "
-    "+-1, +-2 ulp, in 5 containers, all three functions and all relations "
-    "at every T; one case = (container, T), non-trivial = T within 4 ulp of "
-    "or between the two branch temperatures; 12 non-positive arguments x 3 "
-    "functions (all non-trivial). RH<->VMR: 7 saturation functions x 2 "
-    "containers x 2 directions x 6 values x p lattice x T lattice, "
-    "non-trivial = value != 0. Lapse rate: 5 saturation functions x 2 "
-    "containers x (p, T) lattice points with e_s < p, non-trivial = the "
-    "moist correction 2 b w_s exceeds 2^-52. All cases are distinct by "
-    "construction (products of duplicate-free lists).")
+    "+-1, +-2 ulp, in the 7 containers, all three functions and all "
+    "relations at every T; the two array containers hold the whole lattice "
+    "and, in further calls, only its part T < T_t-23 | T_t-23 <= T <= T_t | "
+    "T > T_t, where every element must get the value (to rounding noise) "
+    "it got within the whole lattice; one case = (container, regime, T), "
+    "non-trivial = T within 4 ulp of or between the two branch "
+    "temperatures; 12 non-positive arguments x 3 functions (all "
+    "non-trivial). RH<->VMR: 7 saturation functions x 2 containers x 2 "
+    "directions x e_eq passed positionally | by keyword x 6 values x p "
+    "lattice x T lattice, non-trivial = value != 0. Lapse rate: 5 "
+    "saturation functions x 2 containers x (p, T) lattice points with "
+    "e_s < p, non-trivial = the moist correction 2 b w_s exceeds 2^-52. All "
+    "cases are distinct by construction (products of duplicate-free lists).")
 ASSUMPTIONS = [
     "the statement ranges over continua; decided on the listed lattices only "
     "(converters: exactly, since a Moebius map is fixed by three points and "
@@ -66,8 +72,11 @@ ASSUMPTIONS = [
     "rejected = any exception; NaN temperatures are not covered",
     "lapse rate only where e_s(T) < p; 'approaching g/cp' is read as "
     "1 - lapse/(g/cp) <= 2 w_s Lv^2/(cp Rv T^2)",
-    "2-d arguments are column vectors; other dtypes than float64 and list "
-    "arguments are not covered",
+    "2-d arguments are column vectors or of shape (1,1); other dtypes than "
+    "float64 and list arguments are not covered",
+    "RH <-> VMR is judged by the round trip, as the statement does: a "
+    "change made to both directions alike (e.g. both ignoring e_eq) is not "
+    "covered",
 ]
 
 X0_QUICK = [F(0), F(1, 1000), F(1, 50), F(1, 4), F(1, 2), F(9, 10),
@@ -323,19 +332,26 @@ def run_shard(shard):
                 if k in bad:
                     report(res, bad[k], case)
     elif part == "sat":
-        lattice = sat.lattice(par["per_kelvin"])
-        for t in lattice:
-            res.case(nontrivial=sat.in_blend(t))
-        res.count("branch_neighbourhood_temperatures",
-                  sum(sat.near(t, sat.TT) or sat.near(t, sat.TB)
-                      for t in lattice))
-        for key, idx, exp, obs, msg in sat.sat_violations(shard[2], lattice):
+        for regime, temps, (key, idx, exp, obs, msg) in \
+                sat.lattice_violations(shard[2], par["per_kelvin"]):
+            # an array call is replayed as a whole: what it does to one
+            # element may depend on the others
             case = dict(part=part, container=shard[2],
-                        per_kelvin=par["per_kelvin"]) if idx is None else \
-                dict(part=part, container=shard[2],
-                     temps=[lattice[i] for i in idx])
+                        temps=[temps[i] for i in idx]) \
+                if shard[2] in PER_VALUE else \
+                dict(part=part, container=shard[2], regime=regime,
+                     per_kelvin=par["per_kelvin"],
+                     at=idx and [temps[i] for i in idx])
             report(res, (key, exp, obs, msg), case)
-        case = dict(part=part, container=shard[2], temps=lattice[-2:])
+        for regime in sat.regimes(shard[2]):
+            temps = sat.sublattice(par["per_kelvin"], regime)
+            for t in temps:
+                res.case(nontrivial=sat.in_blend(t))
+            res.count("branch_neighbourhood_temperatures",
+                      sum(sat.near(t, sat.TT) or sat.near(t, sat.TB)
+                          for t in temps))
+        case = dict(part=part, container=shard[2], regime=regime,
+                    temps=temps[-2:])
     elif part == "reject":
         for name, label in itertools.product(sat.SAT, sat.REJECT):
             res.case(nontrivial=True)
@@ -344,16 +360,16 @@ def run_shard(shard):
             if bad:
                 report(res, (bad[0],) + bad[2:], case)
     elif part == "rh":
-        for container, direction in itertools.product(("float", "array"),
-                                                      sat.RH_FUNCS):
+        for container, direction, form in itertools.product(
+                ("float", "array"), sat.RH_FUNCS, sat.E_EQ_FORMS):
             values = RH_VALUES[direction]
             for v in values:
                 for _ in range(len(pascal) * len(temps)):
                     res.case(nontrivial=v != 0)
             for bad in sat.rh_violations(shard[2], container, direction,
-                                         values, pascal, temps):
+                                         form, values, pascal, temps):
                 report(res, (bad[0],) + bad[2:], bad[1])
-        case = sat.rh_case(shard[2], container, direction,
+        case = sat.rh_case(shard[2], container, direction, form,
                            (values[-1], pascal[-1], temps[-1]))
     elif part == "lapse":
         domain = sat.lapse_domain(shard[2], pascal, temps)
@@ -365,7 +381,8 @@ def run_shard(shard):
             for bad in sat.lapse_violations(shard[2], container, pascal,
                                             temps):
                 report(res, (bad[0],) + bad[2:], bad[1])
-        case = sat.lapse_case(shard[2], container, max(domain))
+        case = sat.lapse_case(shard[2], container,
+                              max(domain, default=(pascal[-1], temps[-1])))
     res.sample(case)
     return res
 
@@ -384,16 +401,20 @@ def replay(case):
     elif part == "mono-float":
         bads = [mono_float(case["func"], case["n"]).get(case["k"])]
     elif part == "sat":
-        temps = case.get("temps") or sat.lattice(case["per_kelvin"])
-        bads = [(key, exp, obs, msg) for key, _, exp, obs, msg in
-                sat.sat_violations(case["container"], temps)]
+        if case["container"] in PER_VALUE:
+            found = sat.sat_violations(case["container"], case["temps"])
+        else:
+            found = [bad for regime, _, bad in sat.lattice_violations(
+                case["container"], case["per_kelvin"])
+                if regime == case["regime"]]
+        bads = [(key, exp, obs, msg) for key, _, exp, obs, msg in found]
     elif part == "reject":
         bad = sat.reject_violation(case["func"], case["arg"])
         bads = [bad and (bad[0],) + bad[2:]]
     elif part == "rh":
         bads = [(b[0],) + b[2:] for b in sat.rh_violations(
             case["e_eq"], case["container"], case["direction"],
-            [case["value"]], [case["p"]], [case["T"]])]
+            case["form"], [case["value"]], [case["p"]], [case["T"]])]
     elif part == "lapse":
         bads = [(b[0],) + b[2:] for b in sat.lapse_violations(
             case["e_eq"], case["container"], [case["p"]], [case["T"]])]
